@@ -370,35 +370,39 @@ def numExp (input s : Bytes) (n : Nat) : Option Nat :=
     else numDelim input n
   | _ => numDelim input n
 
-/-- `parseNumber` from ". followed by 1 or more digits" on -/
-def numFrac (input s : Bytes) (n : Nat) : Option Nat :=
+/-- `parseNumber` from ". followed by 1 or more digits" on.  The stage that follows (the exponent) is
+a parameter so that the same definition serves the current code (`numExp`) and the code with the
+proposed repair (`numExpFixed`). -/
+def numFracG (expF : Bytes → Bytes → Nat → Option Nat) (input s : Bytes) (n : Nat) : Option Nat :=
   match s with
   | c0 :: c1 :: t =>
-    if c0 = 0x2e#8 ∧ isDigit c1 = true then numExp input (dropDigits t) (n + 2 + digitsLen t)
-    else numExp input s n
-  | _ => numExp input s n
+    if c0 = 0x2e#8 ∧ isDigit c1 = true then expF input (dropDigits t) (n + 2 + digitsLen t)
+    else expF input s n
+  | _ => expF input s n
 
 /-- `parseNumber` from "Digits" on -/
-def numInt (input s : Bytes) (n : Nat) : Option Nat :=
+def numIntG (expF : Bytes → Bytes → Nat → Option Nat) (input s : Bytes) (n : Nat) : Option Nat :=
   match s with
   | [] => none
   | c :: t =>
-    if c = 0x30#8 then numFrac input t (n + 1)
-    else if isDigit19 c then numFrac input (dropDigits t) (n + 1 + digitsLen t)
+    if c = 0x30#8 then numFracG expF input t (n + 1)
+    else if isDigit19 c then numFracG expF input (dropDigits t) (n + 1 + digitsLen t)
     else none
 
-/-- `parseNumber(input []byte) (int, bool)` -/
-def parseNumber (input : Bytes) : Option Nat :=
+def parseNumberG (expF : Bytes → Bytes → Nat → Option Nat) (input : Bytes) : Option Nat :=
   match input with
   | [] => none
   | c :: t =>
     if c = 0x2d#8 then                                   -- Optional -
       match t with
       | [] => none
-      | _ :: _ => numInt input t 1
-    else numInt input input 0
+      | _ :: _ => numIntG expF input t 1
+    else numIntG expF input input 0
 
-/-- `parseNumber` with the proposed repair /verif/fixes/json-exponent-digits.diff applied:
+/-- `parseNumber(input []byte) (int, bool)` -/
+def parseNumber (input : Bytes) : Option Nat := parseNumberG numExp input
+
+/-- the exponent stage with the proposed repair /verif/fixes/json-exponent-digits.diff applied:
 at least one digit after `e[+-]`. -/
 def numExpFixed (input s : Bytes) (n : Nat) : Option Nat :=
   match s with
@@ -412,30 +416,8 @@ def numExpFixed (input s : Bytes) (n : Nat) : Option Nat :=
     else numDelim input n
   | _ => numDelim input n
 
-def numFracFixed (input s : Bytes) (n : Nat) : Option Nat :=
-  match s with
-  | c0 :: c1 :: t =>
-    if c0 = 0x2e#8 ∧ isDigit c1 = true then numExpFixed input (dropDigits t) (n + 2 + digitsLen t)
-    else numExpFixed input s n
-  | _ => numExpFixed input s n
-
-def numIntFixed (input s : Bytes) (n : Nat) : Option Nat :=
-  match s with
-  | [] => none
-  | c :: t =>
-    if c = 0x30#8 then numFracFixed input t (n + 1)
-    else if isDigit19 c then numFracFixed input (dropDigits t) (n + 1 + digitsLen t)
-    else none
-
-def parseNumberFixed (input : Bytes) : Option Nat :=
-  match input with
-  | [] => none
-  | c :: t =>
-    if c = 0x2d#8 then
-      match t with
-      | [] => none
-      | _ :: _ => numIntFixed input t 1
-    else numIntFixed input input 0
+/-- `parseNumber` once the repair is applied -/
+def parseNumberFixed (input : Bytes) : Option Nat := parseNumberG numExpFixed input
 
 /-- `numberParts` -/
 structure NumberParts where
@@ -626,6 +608,44 @@ inductive Err
   | syntax   -- any error made by newSyntaxError
   deriving DecidableEq, Repr
 
+/-- The `case 'u'` block of the loop of `Decoder.parseString`; `t2` is the input after `\\u`.
+Result: the bytes appended to `out` and the new `in`. -/
+def strEscapeU (t2 : Bytes) : Except Err (Bytes × Bytes) :=
+  if t2.length < 4 then .error .eof                           -- len(in) < 6
+  else
+    match parseHex4 t2 with
+    | none => .error .syntax
+    | some v =>
+      let in6 := t2.drop 4
+      if isSurrogate v then
+        if in6.length < 6 then .error .eof
+        else
+          match in6 with
+          | b0 :: b1 :: t3 =>
+            match parseHex4 t3 with
+            | none => .error .syntax
+            | some v2 =>
+              let r := decodeSurrogates v v2
+              if b0 ≠ 0x5c#8 ∨ b1 ≠ 0x75#8 ∨ r = runeError then .error .syntax
+              else .ok (encodeRune r, t3.drop 4)
+          | _ => .error .eof
+      else .ok (encodeRune v, in6)
+
+/-- The `case r == '\\'` block of the loop of `Decoder.parseString`; `t` is the input after the
+backslash.  Result: the bytes appended to `out` and the new `in`. -/
+def strEscape (t : Bytes) : Except Err (Bytes × Bytes) :=
+  match t with
+  | [] => .error .eof                                         -- len(in) < 2
+  | e :: t2 =>
+    if e = 0x22#8 ∨ e = 0x5c#8 ∨ e = 0x2f#8 then .ok ([e], t2)
+    else if e = 0x62#8 then .ok ([0x08#8], t2)                -- \b
+    else if e = 0x66#8 then .ok ([0x0c#8], t2)                -- \f
+    else if e = 0x6e#8 then .ok ([0x0a#8], t2)                -- \n
+    else if e = 0x72#8 then .ok ([0x0d#8], t2)                -- \r
+    else if e = 0x74#8 then .ok ([0x09#8], t2)                -- \t
+    else if e = 0x75#8 then strEscapeU t2                     -- \u
+    else .error .syntax
+
 /-- The `for len(in) > 0` loop of `Decoder.parseString`; `inp` is the unconsumed input, `out` the
 unescaped content so far; result: `(content, unconsumed input after the closing quote)`.
 One iteration per character or escape (the `indexNeedEscapeInBytes` fast path, which only copies a
@@ -640,36 +660,9 @@ def strLoop : Nat → Bytes → Bytes → Except Err (Bytes × Bytes)
     else if rn.1 < 0x20 then .error .syntax                    -- invalid character in string
     else if rn.1 = 0x22 then .ok (out, t)                      -- '"'
     else if rn.1 = 0x5c then                                   -- '\\'
-      match t with
-      | [] => .error .eof                                      -- len(in) < 2
-      | e :: t2 =>
-        if e = 0x22#8 ∨ e = 0x5c#8 ∨ e = 0x2f#8 then strLoop fuel t2 (out ++ [e])
-        else if e = 0x62#8 then strLoop fuel t2 (out ++ [0x08#8])    -- \b
-        else if e = 0x66#8 then strLoop fuel t2 (out ++ [0x0c#8])    -- \f
-        else if e = 0x6e#8 then strLoop fuel t2 (out ++ [0x0a#8])    -- \n
-        else if e = 0x72#8 then strLoop fuel t2 (out ++ [0x0d#8])    -- \r
-        else if e = 0x74#8 then strLoop fuel t2 (out ++ [0x09#8])    -- \t
-        else if e = 0x75#8 then                                      -- \u
-          if t2.length < 4 then .error .eof                          -- len(in) < 6
-          else
-            match parseHex4 t2 with
-            | none => .error .syntax
-            | some v =>
-              let in6 := t2.drop 4
-              if isSurrogate v then
-                if in6.length < 6 then .error .eof
-                else
-                  match in6 with
-                  | b0 :: b1 :: t3 =>
-                    match parseHex4 t3 with
-                    | none => .error .syntax
-                    | some v2 =>
-                      let r := decodeSurrogates v v2
-                      if b0 ≠ 0x5c#8 ∨ b1 ≠ 0x75#8 ∨ r = runeError then .error .syntax
-                      else strLoop fuel (t3.drop 4) (out ++ encodeRune r)
-                  | _ => .error .eof
-              else strLoop fuel in6 (out ++ encodeRune v)
-        else .error .syntax
+      match strEscape t with
+      | .error e => .error e
+      | .ok (d, rest) => strLoop fuel rest (out ++ d)
     else strLoop fuel ((a :: t).drop rn.2) (out ++ (a :: t).take rn.2)
 
 /-- `Decoder.parseString(in) (string, int, error)`: `(content, n)` -/
